@@ -10,7 +10,8 @@
 (*            "afterblank" | "undeclared" | "argafteratt" | "wrongformat"  *)
 (*            | "bincomment"                                                *)
 (*   pclass : "valid" | "nohyphen" | "badquery" | "badsem" | "trailing"    *)
-(*            | "trailinghyphen" | "padded" | "absent"  (anything but one  *)
+(*            | "trailinghyphen" | "padded" | "unicodefold" | "absent"     *)
+(*            (anything but one                                             *)
 (*            of the 21 problems, up to case, is not a problem)             *)
 (*   kind   : "SE" | "DC" | "DS" (of a valid problem)                      *)
 (*   argc   : "absent" | "valid" | "toobig" | "zero" | "negative" | "nan"  *)
